@@ -310,7 +310,80 @@ class FuncInfo:
 
             def visit_Lambda(self, n):
                 return n
-        return ast.fix_missing_locations(T(depth).visit(_copy(expr)))
+
+            def visit_Call(self, n):
+                orig = n
+                n = self.generic_visit(n)
+                if self.d > 0:
+                    r = fi._inline_helper(orig, n, self.d)
+                    if r is not None:
+                        return r
+                return n
+        # calls are resolved on the ORIGINAL nodes (they carry the parent links); the deep copy keeps a pointer to its original
+        cp = _copy(expr)
+        for a_, b_ in zip(ast.walk(expr), ast.walk(cp)):
+            if isinstance(b_, ast.Call):
+                b_._orig = a_
+        return ast.fix_missing_locations(T(depth).visit(cp))
+
+    def _inline_helper(self, orig, call, depth):
+        """`helper(args)` -> the helper's returned expression with the parameters replaced by the arguments, when the helper did not exist on the pinned
+        tree (obligations/known_functions.json) and is straight-line code (`name = expr` statements and one final return). Structural rules then see a
+        function and the expression-level helpers extracted from it as one construct. None when not applicable."""
+        repo = getattr(self.module, 'repo', None)
+        if repo is None or any(isinstance(a, ast.Starred) for a in call.args) or any(k.arg is None for k in call.keywords):
+            return None
+        from .proto import known_functions
+        src = getattr(orig, '_orig', orig)
+        try:
+            tg = repo.resolve_call(self, src, virtual=False)
+        except Exception:
+            return None
+        if len(tg) != 1 or tg[0].where in known_functions() or tg[0].node is self.node or tg[0].vararg or tg[0].kwarg:
+            return None
+        t = tg[0]
+        body = t.body()
+        if not body or not isinstance(body[-1], ast.Return) or body[-1].value is None:
+            return None
+        for s_ in body[:-1]:
+            if not (isinstance(s_, ast.Assign) and len(s_.targets) == 1 and isinstance(s_.targets[0], ast.Name)):
+                return None
+        if any(isinstance(x, (ast.Lambda, ast.ListComp, ast.DictComp, ast.SetComp, ast.GeneratorExp, ast.Yield, ast.YieldFrom, ast.Await, ast.NamedExpr)) for x in ast.walk(t.node)):
+            return None
+        if t.is_method:
+            rcv = call.func.value if isinstance(call.func, ast.Attribute) else None
+            if not (isinstance(rcv, ast.Name) and rcv.id == self.self_name):
+                return None
+        params = t.real_params
+        assigned = {s_.targets[0].id for s_ in body[:-1]}
+        bind = {}
+        for k_, a_ in enumerate(call.args):
+            if k_ >= len(params):
+                return None
+            bind[params[k_]] = a_
+        for kw in call.keywords:
+            if kw.arg not in params + t.kwonly or kw.arg in bind:
+                return None
+            bind[kw.arg] = kw.value
+        for p_, d_ in t.defaults().items():
+            bind.setdefault(p_, d_)
+        if set(params + t.kwonly) - set(bind) or set(bind) & assigned:
+            return None
+        e = t.expand(body[-1].value, depth=depth - 1)
+        selfmap = {t.self_name: self.self_name} if t.is_method and t.self_name != self.self_name else {}
+
+        class S(ast.NodeTransformer):
+            def visit_Name(self, n):
+                if isinstance(n.ctx, ast.Load) and n.id in bind:
+                    return _copy(bind[n.id])
+                if n.id in selfmap:
+                    return ast.copy_location(ast.Name(id=selfmap[n.id], ctx=n.ctx), n)
+                return n
+        out = S().visit(_copy(e))
+        # free local names of the helper must not leak into the caller
+        if any(isinstance(x, ast.Name) and x.id in assigned for x in ast.walk(out)):
+            return None
+        return ast.copy_location(out, call)
 
 
 def _copy(node):
@@ -339,6 +412,29 @@ class ClassInfo:
                 for t in s.targets:
                     if isinstance(t, ast.Name):
                         self.class_attrs[t.id] = s.value
+                        # `__add__ = _make_op('add')`: a method produced by a module-level factory that returns a nested function
+                        m_ = self._factory_method(module, t.id, s.value)
+                        if m_ is not None:
+                            self.methods[t.id] = m_
+
+    def _factory_method(self, module, name, value):
+        if not (isinstance(value, ast.Call) and isinstance(value.func, ast.Name) and not value.keywords and
+                all(isinstance(a, ast.Constant) for a in value.args)):
+            return None
+        fac = next((n for n in module.tree.body if isinstance(n, ast.FunctionDef) and n.name == value.func.id), None)
+        if fac is None or len(fac.args.args) != len(value.args):
+            return None
+        inner = [n for n in fac.body if isinstance(n, ast.FunctionDef)]
+        rets = [n for n in fac.body if isinstance(n, ast.Return) and n.value is not None]
+        if len(inner) != 1 or len(rets) != 1 or not (isinstance(rets[0].value, ast.Name) and rets[0].value.id == inner[0].name):
+            return None
+        import copy as _copy
+        node = _copy.deepcopy(inner[0])
+        node.name = name
+        fi = FuncInfo(module, self, node)
+        fi.closure = {p_.arg: a_.value for p_, a_ in zip(fac.args.args, value.args)}     # free variables of the nested function bound by the factory call
+        fi.factory = fac.name
+        return fi
 
     @property
     def where(self):
@@ -435,11 +531,13 @@ class Repo:
                 continue
             try:
                 self.modules[rel] = Module(rel, p, self.overrides.get(rel))
+                self.modules[rel].repo = self
             except SyntaxError as e:
                 raise AnalysisError('cannot parse %s: %s' % (rel, e))
         for rel, src in self.overrides.items():
             if rel not in self.modules:
                 self.modules[rel] = Module(rel, self.root / rel, src)
+                self.modules[rel].repo = self
         self.by_dotted = {m.dotted: m for m in self.modules.values()}
         self._cg = None
 
